@@ -176,6 +176,10 @@ def streams(rng, tier):
     for n in [1, 50, 99, 100, 101, 102, 150, 199, 200, 201, 202, 250] + ([] if q else [rng.randrange(90, 210) for _ in range(40)]):
         for _ in range(3 if q else 6):
             out.append(Case("deep", "l.canon", [deep(rng, n)]))
+    # nesting that exhausts CPython's parser stack before its 200-parentheses limit (MemoryError inside eval, must surface as rejection)
+    for pre in ["(MIT or ", "(MIT and ", "(MIT or gd and ", "(MIT WITH llgpl or gd and ", "(gd and MIT or ISC and "]:
+        for n in [150, 170, 180, 185, 188, 190, 195, 199, 200]:
+            out.append(Case("deep-parser-stack", "l.canon", [pre * n + "MIT" + ")" * n]))
     # bounded-exhaustive sweeps (one case per chunk)
     W5 = ["MIT", "or", "AND", "(", ")"]
     W7 = W5 + ["WITH", "389-exception"]
